@@ -216,6 +216,38 @@ pub fn run(ctx: &Ctx) {
             ctx.set("exhaustive", json!(false));
         }
     }
+    // the same verdicts through buffered readers with tiny capacities (the verdict must not depend
+    // on how the bytes arrive): token strings up to length 3, with and without leading blank lines
+    let toks = Tokens { tokens: xml_tokens(), max_len: 3 };
+    let res = par_for(
+        toks.len() * 2,
+        ctx.threads,
+        256,
+        Some(ctx.deadline),
+        |_| 0u64,
+        |acc, k| {
+            let mut bytes = if k % 2 == 1 { b"\n\n\n\n".to_vec() } else { Vec::new() };
+            bytes.extend(toks.get(k / 2));
+            let want = expected(&bytes, true);
+            for cap in [1usize, 2, 4] {
+                let got = subject::guarded(|| subject::parse_reader(std::io::BufReader::with_capacity(cap, &bytes[..]), &subject::RCfg::default()));
+                *acc += 1;
+                if let Ok(r) = got {
+                    let (v, _) = observed(&r);
+                    if v != want {
+                        ctx.report(Violation {
+                            class: "verdict-depends-on-chunking".into(),
+                            summary: format!("into_struct through BufReader::with_capacity({}) on {:?} returned {:?} but the reader events define {:?}", cap, String::from_utf8_lossy(&bytes), v, want),
+                            replay: json!({"bytes_hex": hex(&bytes), "capacity": cap}),
+                            rank: (1 << 56) | k,
+                        });
+                    }
+                }
+            }
+        },
+    );
+    evals += res.accs.iter().sum::<u64>();
+    ctx.push("spaces", json!({"space": "token strings of length <= 3, with and without four leading newlines, through BufReader capacities 1, 2, 4", "size": toks.len() * 2, "visited": res.processed}));
     ctx.set("evaluations", json!(evals));
     ctx.set("distinct_nontrivial", json!(classes.len()));
     ctx.set("verdict_classes", json!(classes));
@@ -228,6 +260,15 @@ pub fn run(ctx: &Ctx) {
 
 pub fn replay(ctx: &Ctx, case: &Value) {
     let bytes = unhex(case["bytes_hex"].as_str().unwrap_or(""));
+    if let Some(cap) = case.get("capacity").and_then(|c| c.as_u64()) {
+        let want = expected(&bytes, true);
+        if let Ok(r) = subject::guarded(|| subject::parse_reader(std::io::BufReader::with_capacity(cap as usize, &bytes[..]), &subject::RCfg::default())) {
+            let (v, _) = observed(&r);
+            if v != want {
+                ctx.report(Violation { class: "verdict-depends-on-chunking".into(), summary: format!("capacity {}: {:?} instead of {:?}", cap, v, want), replay: case.clone(), rank: 0 });
+            }
+        }
+    }
     let mut a = Vec::new();
     let mut b = Vec::new();
     judge(&bytes, 0, &mut a);
